@@ -18,7 +18,7 @@ RULE = ("rewrites: nullable notation (3.0 nullable / 3.1 type list / trailing on
         "applicable position (property, item, additionalProperties, union member, parameter, body, response, component root) x "
         "kind, alone (thorough: pairs of positions); positions include component-level array items / union members and positions where ONE schema object is used several times (path-item parameter, reusable parameter / response / request body, one response under two statuses); 3.0 nullable next to both a type and a composition keyword; wrapper targets include a model with nested inline classes and a composed child (every declaration order); loaders: JSON vs YAML vs extension-less files, file vs loopback URL with 6 "
         "content types, over tricky-scalar documents and the repository's baseline documents; oracle: byte-identical trees and "
-        "equal diagnostics; non-trivial = all variants generated and compared")
+        "equal diagnostics; non-trivial = all variants generated and compared; null named first (type list vs explicit union), nullable inline enums that do not list null (3.0 vs 3.1), titled schemas, loaders under cp1252 / latin-1 / utf-16 / utf-8-sig")
 FLOOR = 0.5
 ASSUMPTIONS = ["only index-preserving forms are treated as the same thing (the null member is appended, members are never re-ordered)",
                "ruamel.yaml is trusted to WRITE the YAML twins"]
